@@ -99,7 +99,8 @@ func (h *Authorization) Unmarshal(v base.HeaderValue) error {
 		uriReceived := false
 		responseReceived := false
 
-		for k, rv := range kvs {
+		for _, k := range sortedKeys(kvs) {
+			rv := kvs[k]
 			v := rv
 
 			switch k {
